@@ -331,6 +331,12 @@ func (c *vfSimConn) handleFetch(version int16, body []byte) ([]byte, string) {
 		if f.MoveLeader == "after" {
 			s.moveLeaderLocked(fp.topic, fp.part, -2)
 		}
+		if f.Kind == "ok" && pl.code == 0 && len(pl.data) > 0 {
+			if s.dataRounds == nil {
+				s.dataRounds = map[string]int64{}
+			}
+			s.dataRounds[key]++
+		}
 		relevant := f.Kind != "ok" || len(pl.data) > 0 || pl.code != 0
 		s.hist.add(vfEvent{Kind: "fetch-part", Broker: c.broker.ID, Conn: c.id, Key: key, Occ: occ, Fault: f.Kind, Code: pl.code, Base: fp.offset, N: len(pl.data),
 			Vals: []int64{int64(version), int64(fp.maxBytes), int64(isolation)}}, relevant)
